@@ -2,11 +2,14 @@ package p15
 
 import (
 	"errors"
+	"os"
 	"regexp"
 	"runtime"
 	"strconv"
 	"strings"
+	"sync"
 	"syscall"
+	"time"
 )
 
 // Stuck-state evidence for a lost wake-up (DESIGN 1.3): a watchdog alone never
@@ -107,4 +110,53 @@ func isEnvErr(err error) bool {
 		}
 	}
 	return false
+}
+
+// The two dumps are separated by wall-clock time, which proves nothing if the
+// whole process was not running in between (frozen, throttled). So the interval
+// only counts when, spread over it, a number of timer rounds completed in each
+// of which a canary thread blocked in a raw read(2) - the same situation as
+// fsnotify's thread in epoll_wait(2) - was woken by the kernel and answered.
+var canary struct {
+	once sync.Once
+	w    *os.File
+	ack  chan struct{}
+	ok   bool
+}
+
+func canaryRoundTrip() bool {
+	canary.once.Do(func() {
+		r, w, err := os.Pipe()
+		if err != nil {
+			return
+		}
+		canary.w, canary.ack, canary.ok = w, make(chan struct{}, 1), true
+		fd := int(r.Fd()) // blocking mode: the goroutine sits in the system call on its own thread
+		go func() {
+			defer r.Close()
+			var b [1]byte
+			for {
+				n, err := syscall.Read(fd, b[:])
+				if err == syscall.EINTR {
+					continue
+				}
+				if n <= 0 || err != nil {
+					return
+				}
+				canary.ack <- struct{}{}
+			}
+		}()
+	})
+	if !canary.ok {
+		return false
+	}
+	if _, err := canary.w.Write([]byte{1}); err != nil {
+		return false
+	}
+	select {
+	case <-canary.ack:
+		return true
+	case <-time.After(2 * time.Second):
+		return false
+	}
 }
